@@ -262,13 +262,13 @@ def make_schedules(rnd: random.Random, idxs: list[int], n_seq: int, n_thr: int,
         kind = rnd.choice(["all", "same", "split", "hot"])
         plans: list[list[int]] = []
         if kind == "all":
-            n = min(n, 6)
+            n = min(n, 4)
             for _t in range(n):
                 o = list(idxs)
                 rnd.shuffle(o)
                 plans.append(o)
         elif kind == "same":
-            n = min(n, 6)
+            n = min(n, 4)
             o = list(idxs)
             rnd.shuffle(o)
             plans = [list(o) for _t in range(n)]
@@ -465,16 +465,28 @@ def check_trace(ctx: core.Ctx, wl: dict[str, Any], res: dict[str, Any], threaded
 # one workload
 # ------------------------------------------------------------------------------------------
 
-def do_workload(ctx: core.Ctx, name: str, n_calls: int, n_seq: int, n_thr: int, trace: bool, pool: Any) -> None:
+def start_workload(ctx: core.Ctx, name: str, n_calls: int, pool: Any) -> dict[str, Any]:
     rnd = ctx.rng
     wl = {"name": name, "calls": gen_workload(rnd, n_calls), "hashseed": rnd.randrange(1, 1 << 20)}
-    calls = wl["calls"]
-    idxs = list(range(len(calls)))
-    ref_res = run_worker({"calls": calls, "mode": "seq", "order": idxs, "limit": 2.0}, wl["hashseed"], 300)
+    wl["ref_future"] = pool.submit(run_worker, {"calls": wl["calls"], "mode": "seq", "order": list(range(n_calls)),
+                                                "limit": 2.0}, wl["hashseed"], 300)
+    return wl
+
+
+def schedule_workload(ctx: core.Ctx, wl: dict[str, Any], n_seq: int, n_thr: int, trace: bool, pool: Any) -> None:
+    rnd = ctx.rng
+    calls, name = wl["calls"], wl["name"]
+    wl["jobs"], wl["tjobs"], wl["ref"] = [], [], None
+    try:
+        ref_res = wl.pop("ref_future").result()
+    except WorkerFailed as e:
+        ctx.disagree("worker-crash", {"workload": name, "schedule": "reference"}, str(e), "worker completes")
+        return
     if ref_res is None:
         ctx.timeouts += 1
         return
     ref = {i: txt for _t, i, txt, secs in ref_res["results"] if secs <= 0.6}
+    wl["ref"] = ref
     slow = len(calls) - len(ref)
     ctx.timeouts += slow
     ctx.count("calls:slow-or-timeout-skipped", slow)
@@ -482,7 +494,7 @@ def do_workload(ctx: core.Ctx, name: str, n_calls: int, n_seq: int, n_thr: int, 
         ctx.count("op:" + c["op"])
     for i, txt in ref.items():
         ctx.count("ref:" + (txt if txt.startswith("!") else "ok"))
-    if ctx.samples is not None and len(ctx.samples) < 12:
+    if len(ctx.samples) < 12:
         for i in list(ref)[:4]:
             ctx.samples.append({"call": calls[i], "reference": ref[i]})
     if not ref_res["stacks_empty"]:
@@ -490,24 +502,25 @@ def do_workload(ctx: core.Ctx, name: str, n_calls: int, n_seq: int, n_thr: int, 
                      "every list empty")
     good = sorted(ref)
     probes = [i for i in good if calls[i]["op"][0] == "p"]
-    scheds = make_schedules(rnd, good, n_seq, n_thr, probes)
-    jobs = []
-    for s in scheds:
-        jobs.append((s, pool.submit(run_worker, job_of(calls, s), wl["hashseed"], 240)))
-    tjobs = []
+    for s in make_schedules(rnd, good, n_seq, n_thr, probes):
+        wl["jobs"].append((s, pool.submit(run_worker, job_of(calls, s), wl["hashseed"], 240)))
     if trace:
         sub = sorted(set(good[:: max(1, len(good) // 80)][:80]) | set(probes))
         o = list(sub)
         rnd.shuffle(o)
-        tjobs.append((False, pool.submit(run_worker, {"calls": calls, "mode": "seq", "order": sub, "limit": 5.0, "trace": True},
-                                         wl["hashseed"], 240)))
+        wl["tjobs"].append((False, pool.submit(run_worker, {"calls": calls, "mode": "seq", "order": sub, "limit": 5.0,
+                                                           "trace": True}, wl["hashseed"], 240)))
         n = rnd.choice([2, 4, 6])
         same = rnd.random() < 0.5
         plans = [list(o) for _ in range(n)] if same else [rnd.sample(o, len(o)) for _ in range(n)]
-        tjobs.append((True, pool.submit(run_worker, {"calls": calls, "mode": "threads", "plans": plans, "trace": True,
-                                                     "sync_probes": same, "sched_seed": rnd.randrange(1 << 30)},
-                                        wl["hashseed"], 240)))
-    for s, fut in jobs:
+        wl["tjobs"].append((True, pool.submit(run_worker, {"calls": calls, "mode": "threads", "plans": plans, "trace": True,
+                                                          "sync_probes": same, "sched_seed": rnd.randrange(1 << 30)},
+                                              wl["hashseed"], 240)))
+
+
+def collect_workload(ctx: core.Ctx, wl: dict[str, Any]) -> None:
+    calls, name, ref = wl["calls"], wl["name"], wl["ref"]
+    for s, fut in wl["jobs"]:
         try:
             res = fut.result()
         except WorkerFailed as e:
@@ -519,7 +532,7 @@ def do_workload(ctx: core.Ctx, name: str, n_calls: int, n_seq: int, n_thr: int, 
             continue
         ctx.timeouts += len(res["timeouts"])
         compare(ctx, wl, s, res, ref, "results-" + s["kind"].split("-")[0])
-    for threaded, fut in tjobs:
+    for threaded, fut in wl["tjobs"]:
         try:
             res = fut.result()
         except WorkerFailed as e:
@@ -528,7 +541,6 @@ def do_workload(ctx: core.Ctx, name: str, n_calls: int, n_seq: int, n_thr: int, 
         if res is None:
             ctx.timeouts += 1
             continue
-        sched = {"mode": "threads" if threaded else "seq", "kind": "traced-" + ("threads" if threaded else "seq")}
         # results of the instrumented run are compared too (the wrappers must be transparent), as a disagreement only
         for th, i, txt, _s in res["results"]:
             if i in ref and txt != ref[i]:
@@ -536,22 +548,30 @@ def do_workload(ctx: core.Ctx, name: str, n_calls: int, n_seq: int, n_thr: int, 
         check_trace(ctx, wl, res, threaded)
 
 
+def run_batch(ctx: core.Ctx, names: list[str], n_seq: int, n_thr: int, trace: bool, pool: Any) -> None:
+    wls = [start_workload(ctx, nm, 300, pool) for nm in names]
+    for wl in wls:
+        schedule_workload(ctx, wl, n_seq, n_thr, trace, pool)
+    for wl in wls:
+        collect_workload(ctx, wl)
+
+
 def correspondence(ctx: core.Ctx) -> None:
     n_wl = ctx.budget(3, 40)
     n_seq = ctx.budget(2, 9)
     n_thr = ctx.budget(3, 20)
-    with concurrent.futures.ThreadPoolExecutor(max_workers=ctx.budget(7, 10)) as pool:
-        for w in range(n_wl):
-            do_workload(ctx, f"seed{ctx.seed}-w{w}", 300, n_seq, n_thr, True, pool)
+    with concurrent.futures.ThreadPoolExecutor(max_workers=ctx.budget(10, 12)) as pool:
+        for w0 in range(0, n_wl, 4):
+            run_batch(ctx, [f"seed{ctx.seed}-w{w}" for w in range(w0, min(n_wl, w0 + 4))], n_seq, n_thr, True, pool)
 
 
 def search(ctx: core.Ctx) -> None:
     """A proof or the trace correspondence broke: look harder for a call whose result depends on schedule/history."""
-    with concurrent.futures.ThreadPoolExecutor(max_workers=10) as pool:
-        for w in range(6):
+    with concurrent.futures.ThreadPoolExecutor(max_workers=12) as pool:
+        for w in range(3):
             if ctx.violations:
                 return
-            do_workload(ctx, f"seed{ctx.seed}-search{w}", 300, 3, 12, False, pool)
+            run_batch(ctx, [f"seed{ctx.seed}-search{w}-{j}" for j in range(3)], 3, 9, False, pool)
 
 
 REPLAY_TRIES = 5
